@@ -7,6 +7,21 @@ byte intervals `(last byte of the interval, target)`.
 -/
 namespace PhpVerif
 
+/-- a name as a number (its bytes as base-256 digits), computed when the source is elaborated: tables that the
+    kernel evaluates hold no strings -/
+def nameCode (s : String) : Nat := s.toUTF8.foldl (fun a b => a * 256 + b.toNat) 0
+
+open Lean in
+macro "nm!" s:str : term => do
+  let n := nameCode s.getString
+  return Syntax.mkNumLit (toString n)
+
+open Lean in
+/-- the bytes of a string literal as a list of numbers -/
+macro "bytes!" s:str : term => do
+  let bs : Array (TSyntax `term) := (s.getString.toUTF8.toList.map (fun b => (Syntax.mkNumLit (toString b.toNat) : TSyntax `term))).toArray
+  `([$bs,*])
+
 structure DFARow where
   state : Nat
   conds : List (Nat × Nat)      -- outcome (1 = true) of each `when` condition of the state, for this row
@@ -32,5 +47,55 @@ def rowCaseBlind (r : DFARow) : Bool :=
     the byte back (it is read again by the state the scanner continues in), or is the error transition -/
 def rowNewlineOK (nl hold : List Nat) (r : DFARow) : Bool :=
   [10, 13].all (fun b => let t := r.target b; t == 0 || nl.contains t || hold.contains t)
+
+/-- what an action block `trM` does, as far as token recognition goes -/
+structure TrInfo where
+  id : Nat                          -- 10000 + M
+  act : Option Nat                  -- `lex.act = N`
+  emits : Bool                      -- contains `goto _out`: a token is returned
+  toks : List Nat                   -- token numbers the block may assign (999999: the token's own first byte)
+  sw : List (Nat × List Nat)        -- `switch lex.act`: per case, the token numbers it may assign
+  next : Nat                        -- `goto stK` at its end (0: none)
+  deriving Repr
+
+structure ScanRes where
+  tok : Option Nat       -- the token returned, when it is determined
+  consumed : Nat         -- bytes read when the token was returned
+
+/-- run the transition table (one row per state) from state `cs` with the `act` register on the bytes `bs`;
+    stop at the first action block that returns a token -/
+def scanRun (rows : List DFARow) (trs : List TrInfo) : Nat → Option Nat → List Nat → Nat → Option ScanRes
+  | _, _, [], _ => none
+  | cs, act, b :: rest, n =>
+    match rows.find? (fun r => r.state == cs) with
+    | none => none
+    | some row =>
+      let t := row.target b
+      if t == 0 then none
+      else if t < 10000 then scanRun rows trs t act rest (n + 1)
+      else
+        match trs.find? (fun x => x.id == t) with
+        | none => none
+        | some ti =>
+          let act' := match ti.act with
+            | some a => some a
+            | none => act
+          if ti.emits then
+            let cand := if ti.sw.isEmpty then ti.toks
+              else match act with
+                | some a => ((ti.sw.find? (fun c => c.1 == a)).map (·.2)).getD []
+                | none => []
+            match cand with
+            | [k] => some { tok := some k, consumed := n }
+            | _ => some { tok := none, consumed := n }
+          else if ti.next == 0 then none
+          else scanRun rows trs ti.next act' rest (n + 1)
+
+/-- the token the scanner (entry state `start`) returns first on `word` followed by `delim`, if the run with
+    every `when` condition false (`rows0`) and the run with every condition true (`rows1`) agree on it -/
+def scanWord (rows0 rows1 : List DFARow) (trs : List TrInfo) (start : Nat) (word : List Nat) (delim : Nat) : Option Nat :=
+  match scanRun rows0 trs start none (word ++ [delim]) 0, scanRun rows1 trs start none (word ++ [delim]) 0 with
+  | some a, some b => if a.tok == b.tok then a.tok else none
+  | _, _ => none
 
 end PhpVerif
